@@ -23,8 +23,9 @@ type c17File struct {
 }
 
 type c17Dir struct {
-	Path  string    `json:"path"` // relative to the module root, "" = root package
-	Files []c17File `json:"files"`
+	Path    string    `json:"path"` // relative to the module root, "" = root package
+	Files   []c17File `json:"files"`
+	Imports []string  `json:"imports,omitempty"` // module-relative paths of the packages its first file imports
 }
 
 type c17Input struct {
@@ -37,6 +38,10 @@ type c17Input struct {
 type c17Case struct {
 	Dirs   []c17Dir   `json:"dirs"`
 	Inputs []c17Input `json:"inputs"`
+	// CwdDir: 0 = the process keeps its working directory (outside the module: every relative path starts with
+	// the same "../.." elements); k > 0 = the loader is called from inside Dirs[k-1], so that relative paths
+	// look like "f1.go", "../foobar/f1.go", "sub/f1.go"
+	CwdDir int `json:"cwd_dir,omitempty"`
 }
 
 var c17DirNames = []string{"foo", "foobar", "foo/bar", "ab1", "ab2", "a", "ab", "x/y", "x/yz", "models", "models2", "pkg/api", "pkg/apiserver"}
@@ -85,6 +90,9 @@ func c17Gen(t *rapid.T, r *h.Rec) c17Case {
 		di := rapid.IntRange(0, len(c.Dirs)-1).Draw(t, "inDir")
 		c.Inputs = append(c.Inputs, c17Input{Dir: di, File: rapid.IntRange(0, len(c.Dirs[di].Files)-1).Draw(t, "inFile"), Abs: rapid.Bool().Draw(t, "abs"), Kind: "ok"})
 	}
+	if rapid.Bool().Draw(t, "insideModule") {
+		c.CwdDir = 1 + rapid.IntRange(0, len(c.Dirs)-1).Draw(t, "cwdDir")
+	}
 	// one error case in six
 	switch rapid.IntRange(0, 17).Draw(t, "errorCase") {
 	case 0:
@@ -94,6 +102,16 @@ func c17Gen(t *rapid.T, r *h.Rec) c17Case {
 	case 2:
 		in := c.Inputs[rapid.IntRange(0, len(c.Inputs)-1).Draw(t, "errIdx")]
 		c.Dirs[in.Dir].Files[in.File].Broken = true
+	case 3, 4:
+		// the type error sits in a package that is only imported, never requested
+		in := c.Inputs[rapid.IntRange(0, len(c.Inputs)-1).Draw(t, "errIdx")]
+		c.Dirs = append(c.Dirs, c17Dir{Path: "zz/dep", Files: []c17File{{Name: "dep.go", Broken: true}}})
+		c.Dirs[in.Dir].Imports = append(c.Dirs[in.Dir].Imports, "zz/dep")
+	case 5, 6:
+		// a healthy package that is only imported
+		in := c.Inputs[rapid.IntRange(0, len(c.Inputs)-1).Draw(t, "errIdx")]
+		c.Dirs = append(c.Dirs, c17Dir{Path: "zz/dep", Files: []c17File{{Name: "dep.go"}}})
+		c.Dirs[in.Dir].Imports = append(c.Dirs[in.Dir].Imports, "zz/dep")
 	}
 	return c
 }
@@ -120,9 +138,16 @@ func c17Check(c c17Case, r *h.Rec) error {
 		dir := filepath.Join(mod, d.Path)
 		os.MkdirAll(dir, 0o755)
 		for fi, f := range d.Files {
-			src := fmt.Sprintf("package %s\n\ntype T%d%d struct{ A int }\n", pkgNameOf(d.Path), di, fi)
+			src := fmt.Sprintf("package %s\n\n", pkgNameOf(d.Path))
+			if fi == 0 {
+				for _, imp := range d.Imports {
+					src += fmt.Sprintf("import _ %q\n", "verif.test/org/proj/"+imp)
+				}
+			}
+			src += fmt.Sprintf("\ntype T%d%d struct{ A int }\n", di, fi)
 			if f.Broken {
-				src += "\nvar broken int = \"not an int\"\n"
+				// inside a function body: the package still exports a complete API
+				src += "\nfunc broken() int {\n\tvar x int = \"not an int\"\n\treturn x\n}\n"
 				anyBroken[di] = true
 			}
 			os.WriteFile(filepath.Join(dir, f.Name), []byte(src), 0o644)
@@ -130,6 +155,15 @@ func c17Check(c c17Case, r *h.Rec) error {
 		os.WriteFile(filepath.Join(dir, "notes.txt"), []byte("not go\n"), 0o644)
 	}
 	cwd, _ := os.Getwd()
+	if c.CwdDir > 0 && c.CwdDir <= len(c.Dirs) {
+		// relative paths are relative to the working directory of the process: move into the module for this case
+		inside := filepath.Join(mod, c.Dirs[c.CwdDir-1].Path)
+		if err := os.Chdir(inside); err != nil {
+			return h.Inconcf("chdir: %v", err)
+		}
+		defer os.Chdir(cwd)
+		cwd = inside
+	}
 	var files, absFiles []string
 	expectErr := ""
 	dirsUsed := map[int]bool{}
@@ -160,6 +194,13 @@ func c17Check(c c17Case, r *h.Rec) error {
 	for di := range dirsUsed {
 		if anyBroken[di] && expectErr == "" {
 			expectErr = "package with a type error"
+		}
+		for _, imp := range c.Dirs[di].Imports {
+			for dj, d := range c.Dirs {
+				if d.Path == imp && anyBroken[dj] && expectErr == "" {
+					expectErr = "imported package with a type error"
+				}
+			}
 		}
 	}
 	desc := func() string {
@@ -238,7 +279,7 @@ func c17Check(c c17Case, r *h.Rec) error {
 func TestC17(t *testing.T) {
 	h.Main(t, h.Prop[c17Case]{
 		ID: "C17",
-		Rule: "rapid directory layouts inside one temporary module (1..4 package directories among names sharing prefixes — foo/foobar, ab1/ab2, a/ab, x/y vs x/yz, pkg/api vs pkg/apiserver — nested packages, 1..2 files each) and 1..5 input files (duplicates, relative to the process cwd or absolute, mixed) plus error cases (missing file, non-Go file, package with a type error) -> the real analysis.LoadSources; success => one type-checked package per file, in order, containing its absolute path and having the expected import path, and a root that is an existing directory and a path-component ancestor of every file; error cases => a non-nil error, never a panic; " +
+		Rule: "rapid directory layouts inside one temporary module (1..4 package directories among names sharing prefixes — foo/foobar, ab1/ab2, a/ab, x/y vs x/yz, pkg/api vs pkg/apiserver — nested packages, 1..2 files each) and 1..5 input files (duplicates, relative to the process cwd or absolute, mixed) plus error cases (missing file, non-Go file, a type error in a requested package or in a package that is only imported) -> the real analysis.LoadSources; success => one type-checked package per file, in order, containing its absolute path and having the expected import path, and a root that is an existing directory and a path-component ancestor of every file; error cases => a non-nil error, never a panic; " +
 			"non-trivial = >= 2 files in >= 2 directories, or an error case; distinct by layout hash",
 		Assumes: []string{"the real loader (go list) is used, no stand-in", "the empty file list is outside the stated domain"},
 		Gen:     c17Gen,
